@@ -18,6 +18,7 @@
   produces.
 -/
 import EV.Proofs.PsetWireTyped
+import EV.Proofs.PsetBridge
 import EV.Props.C20
 namespace EV.Props.C07
 open EV EV.Codec EV.PsetWire EV.Proofs.CodecPrim EV.Proofs.PsetWireRaw EV.Proofs.PsetWireMap EV.Proofs.PsetWireCodec
@@ -524,5 +525,165 @@ theorem sample_wf : WfPset W samplePset := by
 example : Pset.deserialize W (Pset.serialize W samplePset) = .ok samplePset := pset_roundtrip W _ (sample_wf W)
 example : Text.psetParse (Pset.deserialize W) (Text.psetShow (Pset.serialize W) samplePset) = .ok samplePset :=
   base64_roundtrip W _ (sample_wf W)
+
+/-! ## BRIDGE to C08 (`from_tx`, `extract_tx`, `unique_id`, `locktime`) and C14 (`merge`)
+
+  The codec of this file and the functions of C08 / C14 are defined on the SAME records
+  (`PsetGlobal`, `PsetInput`, `PsetOutput`, `Pset` of EV.Model.Pset: all 11 + 48 + 20 fields, nothing is
+  projected away), so `Pset.serialize W (Pset.fromTx t)`, `(Pset.deserialize W bs).bind Pset.extractTx`,
+  `Pset.merge H a b` followed by `Pset.serialize W` … are well-typed compositions of the three models.
+  What differs is the DOMAIN the theorems are stated on: `WfPset` here, `Pset.Sorted` in C14, `Tx.wf`
+  (C01) in C08.  The theorems below connect the domains. -/
+
+section Bridge
+open EV.Proofs.PsetBridge
+
+/-- a codec-well-formed PSET satisfies the `BTreeMap` invariant (`Pset.Sorted`) under which the merge
+    laws of C14 (commutativity, associativity, nothing lost) are stated: they apply to everything the
+    decoder accepts -/
+theorem wf_is_sorted (p : Pset) (h : WfPset W p) : p.Sorted := wf_sorted W p h
+
+theorem decoded_is_sorted (bs : Bytes) (p : Pset) (h : Pset.deserialize W bs = .ok p) : p.Sorted :=
+  wf_sorted W p (dec_wf W bs p h)
+
+/-- `from_tx_is_wf`: for every well-formed transaction (C01's `Tx.wf`) that is within the limits of the PSET
+    format itself (`TxReady`: ≤ 10 000 inputs and outputs; each witness stack fits one pair value; every
+    output has a value and an asset; a confidential nonce only on an at least partially blinded output —
+    the class F12bc of C08), the PSET built by C08's `from_tx` is well-formed for the codec -/
+theorem from_tx_is_wf (t : Tx) (hw : t.wf W.P) (hr : TxReady t) : WfPset W (Pset.fromTx t) := fromTx_wf W t hw hr
+
+/-- the carve-out is EXACT: for a well-formed transaction, `from_tx t` is codec-well-formed iff `TxReady t` -/
+theorem from_tx_is_wf_iff (t : Tx) (hw : t.wf W.P) : WfPset W (Pset.fromTx t) ↔ TxReady t := fromTx_wf_iff W t hw
+
+/-- COROLLARY: `from_tx(tx)` serializes to bytes that deserialize to the same PSET, and re-serializing the
+    decoded PSET gives the same bytes -/
+theorem from_tx_roundtrip (t : Tx) (hw : t.wf W.P) (hr : TxReady t) :
+    Pset.deserialize W (Pset.serialize W (Pset.fromTx t)) = .ok (Pset.fromTx t) ∧
+    (Pset.deserialize W (Pset.serialize W (Pset.fromTx t))).map (Pset.serialize W) = .ok (Pset.serialize W (Pset.fromTx t)) := by
+  have h := pset_roundtrip W _ (from_tx_is_wf W t hw hr)
+  exact ⟨h, by rw [h]; rfl⟩
+
+/-- … and outside the carve-out the bytes of `from_tx(tx)` do NOT decode back to it (more than 10 000
+    maps, a null value or asset, a confidential nonce on an unblinded output, an over-long witness stack) -/
+theorem from_tx_roundtrip_only_if (t : Tx) (hw : t.wf W.P)
+    (h : Pset.deserialize W (Pset.serialize W (Pset.fromTx t)) = .ok (Pset.fromTx t)) : TxReady t :=
+  (from_tx_is_wf_iff W t hw).mp (dec_wf W _ _ h)
+
+/-- composition with C08's `extract_from_tx`: whenever C08 gives `extract_tx(from_tx t) = t`, going through
+    the binary form in between changes nothing -/
+theorem extract_after_bytes (t : Tx) (hw : t.wf W.P) (hr : TxReady t) (hx : (Pset.fromTx t).extractTx = .ok t) :
+    (Pset.deserialize W (Pset.serialize W (Pset.fromTx t))).bind Pset.extractTx = .ok t := by
+  rw [(from_tx_roundtrip W t hw hr).1]
+  exact hx
+
+/-- the hypotheses are satisfiable: the empty transaction (for every `W`) … -/
+example : (⟨2, 0, [], []⟩ : Tx).wf W.P ∧ TxReady ⟨2, 0, [], []⟩ := by
+  refine ⟨⟨(by decide), (by decide), (by simp [maxVecSize]), (by simp [maxVecSize]), (by intro i h; cases h), (by intro o h; cases h)⟩,
+    (by decide), (by decide), (by intro i h; cases h), (by intro o h; cases h)⟩
+
+/-- … and a transaction with one plain input and one explicit output (platform sizes within the vector limit) -/
+def sampleTx : Tx :=
+  { version := 2, lockTime := 0,
+    input := [{ previousOutput := ⟨List.replicate 32 0, 0⟩, isPegin := false, scriptSig := [], sequence := 0xffffffff,
+                assetIssuance := AssetIssuance.null, witness := TxInWitness.empty }],
+    output := [{ asset := .explicit (List.replicate 32 0), value := .explicit 1, nonce := .null, scriptPubkey := [],
+                 witness := TxOutWitness.empty }] }
+
+theorem sampleTx_ready (hs : W.P.sizeTxIn ≤ maxVecSize ∧ W.P.sizeTxOut ≤ maxVecSize) : sampleTx.wf W.P ∧ TxReady sampleTx := by
+  refine ⟨⟨(by decide), (by decide), (by simpa [sampleTx] using hs.1), (by simpa [sampleTx] using hs.2), ?_, ?_⟩, (by decide), (by decide), ?_, ?_⟩
+  · intro i hi
+    simp only [sampleTx, List.mem_singleton] at hi
+    subst hi
+    refine ⟨⟨(by decide), Or.inl ⟨(by decide), (by decide)⟩, (by decide), (by decide), ?_⟩, trivial, trivial,
+      ⟨(by decide), (by intro b hb; cases hb)⟩, ⟨(by decide), (by intro b hb; cases hb)⟩⟩
+    rfl
+  · intro o ho
+    simp only [sampleTx, List.mem_singleton] at ho
+    subst ho
+    exact ⟨⟨(by simp [Asset.wf]), (by simp [Value.wf]), trivial, (by decide)⟩, trivial, trivial⟩
+  · intro i hi
+    simp only [sampleTx, List.mem_singleton] at hi
+    subst hi
+    exact ⟨(by decide), (by intro h; cases h)⟩
+  · intro o ho
+    simp only [sampleTx, List.mem_singleton] at ho
+    subst ho
+    exact ⟨(by intro h; cases h), (by intro h; cases h), (by intro h; cases h)⟩
+
+example (hs : W.P.sizeTxIn ≤ maxVecSize ∧ W.P.sizeTxOut ≤ maxVecSize) :
+    Pset.deserialize W (Pset.serialize W (Pset.fromTx sampleTx)) = .ok (Pset.fromTx sampleTx) :=
+  (from_tx_roundtrip W sampleTx (sampleTx_ready W hs).1 (sampleTx_ready W hs).2).1
+
+/-- `merge_preserves_wf`: if `a` and `b` are codec-well-formed and C14's `merge` succeeds, the result is
+    codec-well-formed — provided its outputs still satisfy the four acceptance rules.  That proviso is
+    needed for exactly one rule ("blinding data absent or complete"): `merge_can_break_blinding_rule`. -/
+theorem merge_preserves_wf (H : Hashes) (a b m : Pset) (ha : WfPset W a) (hb : WfPset W b) (h : Pset.merge H a b = .ok m)
+    (hacc : ∀ o ∈ m.outputs, o.accepted = .ok ()) : WfPset W m :=
+  mergeCore_wf W a b m ha hb (Pset.merge_ok H a b m h).2 hacc
+
+/-- the proviso holds whenever the two operands mark the same outputs for blinding (`blinding_key` present on
+    both sides or on neither) -/
+theorem merge_preserves_wf_same_marking (H : Hashes) (a b m : Pset) (ha : WfPset W a) (hb : WfPset W b)
+    (h : Pset.merge H a b = .ok m) (hl : b.outputs.length ≤ a.outputs.length)
+    (hmark : ∀ (j : Nat) x y, a.outputs[j]? = some x → b.outputs[j]? = some y → x.blindingKey.isSome = y.blindingKey.isSome) :
+    WfPset W m := by
+  have hc := (Pset.merge_ok H a b m h).2
+  refine mergeCore_wf W a b m ha hb hc ?_
+  rw [(Pset.mergeCore_ok a b m hc).2.2]
+  exact merged_outputs_accepted W a b ha hb hl hmark
+
+/-- NEGATIVE: `Output::merge` of two accepted outputs with the same identifying fields can violate the
+    decoder's blinding-completeness rule (an output marked for blinding with no blinding data yet, merged
+    with an unmarked copy that carries a range proof): the merged PSET serializes to bytes the decoder
+    rejects with `MissingBlindingInfo` -/
+theorem merge_can_break_blinding_rule :
+    ∃ x y : PsetOutput, x.accepted = .ok () ∧ y.accepted = .ok () ∧ PsetOutput.IdEq x y ∧
+      (x.merge y).accepted = .err "MissingBlindingInfo" := EV.Proofs.PsetBridge.merge_can_break_blinding_rule
+
+/-- COROLLARY: the merged PSET round-trips through the binary form, and its `unique_id` (C08) is the same
+    before and after the round trip; with C14's `merge_keeps_id` it is the unique id of the operands -/
+theorem merge_roundtrip (H : Hashes) (a b m : Pset) (ha : WfPset W a) (hb : WfPset W b) (h : Pset.merge H a b = .ok m)
+    (hacc : ∀ o ∈ m.outputs, o.accepted = .ok ()) :
+    Pset.deserialize W (Pset.serialize W m) = .ok m ∧
+    (Pset.deserialize W (Pset.serialize W m)).bind (Pset.uniqueId H) = m.uniqueId H := by
+  have hr := pset_roundtrip W m (merge_preserves_wf W H a b m ha hb h hacc)
+  exact ⟨hr, by rw [hr]; rfl⟩
+
+theorem merge_roundtrip_id (H : Hashes) (a b m : Pset) (ha : WfPset W a) (hb : WfPset W b) (hid : Pset.IdEq a b)
+    (h : Pset.merge H a b = .ok m) (hacc : ∀ o ∈ m.outputs, o.accepted = .ok ()) :
+    (Pset.deserialize W (Pset.serialize W m)).bind (Pset.uniqueId H) = a.uniqueId H := by
+  rw [(merge_roundtrip W H a b m ha hb h hacc).2]
+  exact (EV.Proofs.PsetId.uniqueId_congr H (Pset.mergeCore_idEq a b m hid (Pset.merge_ok H a b m h).2))
+
+/-- the hypotheses are satisfiable: the sample PSET merged with itself -/
+example (H : Hashes) : ∃ m, Pset.merge H samplePset samplePset = .ok m ∧ WfPset W m ∧
+    Pset.deserialize W (Pset.serialize W m) = .ok m := by
+  have hu : ∃ u, samplePset.uniqueId H = .ok u := ⟨_, rfl⟩
+  obtain ⟨u, hu⟩ := hu
+  have hm : ∃ m, Pset.merge H samplePset samplePset = .ok m := by
+    rw [Pset.merge_of_uid_eq H _ _ u hu hu]
+    exact ⟨_, rfl⟩
+  obtain ⟨m, hm⟩ := hm
+  have hw := merge_preserves_wf_same_marking W H _ _ m (sample_wf W) (sample_wf W) hm (Nat.le_refl _)
+    (by intro j x y hx hy; rw [hx] at hy; cases hy; rfl)
+  exact ⟨m, hm, hw, pset_roundtrip W m hw⟩
+
+/-- `roundtrip_preserves_views`: for a codec-well-formed PSET, `extract_tx`, `unique_id` and `locktime`
+    (C08) of the decoded serialization are those of the PSET -/
+theorem roundtrip_preserves_views (H : Hashes) (p : Pset) (h : WfPset W p) :
+    (Pset.deserialize W (Pset.serialize W p)).bind Pset.extractTx = p.extractTx ∧
+    (Pset.deserialize W (Pset.serialize W p)).bind (Pset.uniqueId H) = p.uniqueId H ∧
+    (Pset.deserialize W (Pset.serialize W p)).bind Pset.locktime = p.locktime := by
+  rw [pset_roundtrip W p h]
+  exact ⟨rfl, rfl, rfl⟩
+
+/-- the same for every accepted byte string: re-encoding and decoding again does not change any view -/
+theorem reencode_preserves_views (H : Hashes) (bs : Bytes) (p : Pset) (h : Pset.deserialize W bs = .ok p) :
+    (Pset.deserialize W (Pset.serialize W p)).bind Pset.extractTx = p.extractTx ∧
+    (Pset.deserialize W (Pset.serialize W p)).bind (Pset.uniqueId H) = p.uniqueId H ∧
+    (Pset.deserialize W (Pset.serialize W p)).bind Pset.locktime = p.locktime :=
+  roundtrip_preserves_views W H p (dec_wf W bs p h)
+
+end Bridge
 
 end EV.Props.C07
